@@ -67,6 +67,31 @@ _ACTPROP = re.compile(r"Error: Action property (\S+) is violated")
 _COV = re.compile(r"^<(\w+) line \d+, col \d+ to line \d+, col \d+ of module (\w+)>: (\d+):(\d+)", re.M)
 
 
+def _balanced(text):
+    """do the << >> [ ] { } ( ) brackets outside string literals balance?"""
+    depth = 0
+    i = 0
+    n = len(text)
+    while i < n:
+        c = text[i]
+        if c == '"':
+            i += 1
+            while i < n and text[i] != '"':
+                i += 2 if text[i] == "\\" else 1
+        elif text.startswith("<<", i):
+            depth += 1
+            i += 1
+        elif text.startswith(">>", i):
+            depth -= 1
+            i += 1
+        elif c in "[{(":
+            depth += 1
+        elif c in "]})":
+            depth -= 1
+        i += 1
+    return depth == 0
+
+
 class Ctx:
     def __init__(self, pid, tier, seed):
         self.pid = pid
@@ -132,9 +157,19 @@ class Ctx:
             m2 = _SIMSTATS.findall(r.stdout)
             if m2:
                 r.generated = r.distinct = int(m2[-1])
+        acc = None
         for line in r.stdout.splitlines():
-            if line.startswith('<<"'):
-                r.printed.append(line)
+            if acc is not None:             # TLC wraps wide tuples over several lines: collect until brackets balance
+                acc += " " + line.strip()
+                if _balanced(acc):
+                    r.printed.append(acc)
+                    acc = None
+                continue
+            if line.startswith('<<"') or line.startswith('<< "'):
+                if _balanced(line):
+                    r.printed.append(line)
+                else:
+                    acc = line
             elif line.startswith("Error:") and r.error is None:
                 r.error = line
         mi = _INV.search(r.stdout) or _ACTPROP.search(r.stdout)
